@@ -348,8 +348,9 @@ impl Tokenizer {
                     if byte_level.use_regex {
                         Box::new(pre_tokenizers::Split::gpt2())
                     } else {
+                        // Match the whole input, including new lines.
                         let noop_split = pre_tokenizers::SplitOptions {
-                            pattern: r".*",
+                            pattern: r"(?s).*",
                             invert: true,
                             ..Default::default()
                         };
@@ -1425,6 +1426,36 @@ mod tests {
         abs_path.push(path);
         let content = read_to_string(abs_path)?;
         Ok(content)
+    }
+
+    #[test]
+    fn test_from_json_byte_level_without_regex() {
+        // Vocabulary with a token for each byte, with an ID equal to the byte
+        // value, plus one merged token that starts with a new line.
+        let mut vocab: HashMap<String, TokenId> = crate::models::char_to_byte()
+            .into_iter()
+            .map(|(ch, byte)| (ch.to_string(), byte as TokenId))
+            .collect();
+        let newline_b = "\u{10a}b"; // Byte-level encoding of "\nb"
+        vocab.insert(newline_b.to_string(), 256);
+
+        let json = serde_json::json!({
+            "pre_tokenizer": {"type": "ByteLevel", "use_regex": false},
+            "model": {
+                "type": "BPE",
+                "vocab": vocab,
+                "merges": ["\u{10a} b"],
+                "ignore_merges": false,
+            }
+        })
+        .to_string();
+        let tokenizer = Tokenizer::from_json(&json).unwrap();
+
+        let text = "\na\n\nb";
+        let encoded = tokenizer.encode(text, None).unwrap();
+        assert_eq!(encoded.token_ids(), [10, 97, 10, 256]);
+        assert_eq!(encoded.text_for_token_range(0..4), Some(text));
+        assert_eq!(tokenizer.decode(encoded.token_ids()).unwrap(), text);
     }
 
     #[test]
